@@ -178,13 +178,7 @@ Arguments flat_slice {E}. Arguments reducer {E R}. Arguments reduce_at {E R}. Ar
    converted to an integer type by reduction modulo 2^bits (unsigned: [conv.integral]; signed: what gcc /
    clang do, implementation-defined before C++20); to bool by != 0; to a floating type exactly
    (valid while |z| < 2^24 resp. 2^53 — the generators stay below). *)
-Definition int_cast (d : dtype) (z : Z) : Z :=
-  match d with
-  | Bool => if z =? 0 then 0 else 1
-  | U8 | U16 | U32 | U64 => wrap (bits d) z
-  | I8 | I16 | I32 | I64 => swrap (bits d) z
-  | F32 | F64 => z
-  end.
+(* [Dtype.int_cast] *)
 (* one step of reducer_t on integer-valued data: acc = (result_t) op(acc, x) *)
 Definition typed_step (r : dtype) (op : Z -> Z -> Z) (acc x : Z) : Z := int_cast r (op acc x).
 Definition typed_reduce_at (requested : option dtype) (e : dtype) (op : Z -> Z -> Z)
